@@ -13,6 +13,7 @@ obligations on it, keys on incidental syntax.
   split-and     `if a and b: X`           ->  `if a:` / `if b: X`      (no else)
   drop-else     `if T: ..return else: B`  ->  `if T: ..return` ; B
   add-else      `if T: ..return` ; rest   ->  `if T: ..return else: rest`
+  extract-guard `if T: raise E`           ->  `_guardN(a, b)` + module-level `def _guardN(a, b): if T: raise E`
 """
 import ast
 
@@ -151,7 +152,81 @@ class AddElse(_Base):
     return stmts
 
 
-TRANSFORMS = {c.name: c for c in (ReturnTemp, TestTemp, SwapElse, SplitAnd, DropElse, AddElse)}
+class ExtractGuard(_Base):
+  """`if T: raise E` (no else; T and E read only plain names)  ->  `_guardN(a, b)`
+  with a new module-level function `_guardN(a, b): if T: raise E`."""
+  name = 'extract-guard'
+
+  def __init__(self):
+    super().__init__()
+    self.new_funcs = []
+    self.module_names = set()
+
+  def rewrite_stmt(self, st):
+    if not (self.depth and isinstance(st, ast.If) and not st.orelse and len(st.body) == 1
+            and isinstance(st.body[0], ast.Raise) and st.body[0].exc is not None):
+      return [st]
+    bad = (ast.NamedExpr, ast.Lambda, ast.Yield, ast.YieldFrom, ast.Await, ast.ListComp, ast.SetComp,
+           ast.DictComp, ast.GeneratorExp, ast.Starred)
+    if any(isinstance(x, bad) for x in ast.walk(st)):
+      return [st]
+    names = []
+    for x in ast.walk(st):
+      if isinstance(x, ast.Name):
+        if not isinstance(x.ctx, ast.Load):
+          return [st]
+        if x.id not in names:
+          names.append(x.id)
+    import builtins
+    params = [n for n in names if n not in self.module_names and not hasattr(builtins, n)]
+    if any(p.startswith('__') for p in params):
+      return [st]
+    self.count += 1
+    fname = self.fresh('guard')
+    fn = ast.FunctionDef(
+        name=fname,
+        args=ast.arguments(posonlyargs=[], args=[ast.arg(arg=p) for p in params], kwonlyargs=[],
+                           kw_defaults=[], defaults=[]),
+        body=[st], decorator_list=[], lineno=st.lineno, type_params=[])
+    self.new_funcs.append(fn)
+    call = ast.Expr(value=ast.Call(func=ast.Name(id=fname, ctx=ast.Load()),
+                                   args=[ast.Name(id=p, ctx=ast.Load()) for p in params], keywords=[]),
+                    lineno=st.lineno)
+    return [call]
+
+  def visit_Module(self, node):
+    # names bound at module level (imports, defs, classes, assignments) stay global in the helper
+    for st in node.body:
+      if isinstance(st, (ast.Import, ast.ImportFrom)):
+        for a in st.names:
+          self.module_names.add((a.asname or a.name).split('.')[0])
+      elif isinstance(st, (ast.FunctionDef, ast.AsyncFunctionDef, ast.ClassDef)):
+        self.module_names.add(st.name)
+      elif isinstance(st, (ast.Assign, ast.AnnAssign, ast.AugAssign)):
+        for t in (st.targets if isinstance(st, ast.Assign) else [st.target]):
+          for x in ast.walk(t):
+            if isinstance(x, ast.Name):
+              self.module_names.add(x.id)
+      elif isinstance(st, (ast.If, ast.Try)):
+        for x in ast.walk(st):
+          if isinstance(x, (ast.Import, ast.ImportFrom)):
+            for a in x.names:
+              self.module_names.add((a.asname or a.name).split('.')[0])
+    self.generic_visit(node)
+    # helpers go right after the leading docstring / imports: they may be called while
+    # the module is still being imported (class creation hooks)
+    k = 0
+    for i, st in enumerate(node.body):
+      if isinstance(st, (ast.Import, ast.ImportFrom)) or (
+          isinstance(st, ast.Expr) and isinstance(st.value, ast.Constant) and isinstance(st.value.value, str)):
+        k = i + 1
+      else:
+        break
+    node.body = node.body[:k] + self.new_funcs + node.body[k:]
+    return node
+
+
+TRANSFORMS = {c.name: c for c in (ReturnTemp, TestTemp, SwapElse, SplitAnd, DropElse, AddElse, ExtractGuard)}
 
 
 def transform_source(src, name):
